@@ -264,7 +264,7 @@ class BFGSDampedUpdate(BFGSPDUpdate):
         else:
             theta = 1.0
 
-        y_ = theta * y - (1.0 - theta) * h.dot(s)
+        y_ = theta * y + (1.0 - theta) * h.dot(s)
 
         h_new = (
             h
